@@ -110,13 +110,26 @@ std::string showVal(const T& v) {
 	else return std::to_string(static_cast<unsigned long long>(v));
 }
 
+// The text handed to the parsers is a VIEW into a larger buffer that continues with the digits "75": a parser that looks
+// past the end of its view (the view is not NUL-terminated) changes its answer and disagrees with the model.
 template <class Ch>
-std::basic_string<Ch> unitsToStr(const std::string& tok) {
+struct PaddedText {
+	std::basic_string<Ch> buf;
+	size_t n = 0;
+	const Ch* data() const { return buf.data(); }
+	size_t size() const { return n; }
+};
+template <class Ch>
+PaddedText<Ch> unitsToStr(const std::string& tok) {
 	const auto us = parseUnits(tok);
 	for (auto u : us) {
 		if (sizeof(Ch) < 8 && (u >> (8 * sizeof(Ch))) != 0) throw BadOp("unit width");
 	}
-	return toStr<std::basic_string<Ch>>(us);
+	PaddedText<Ch> r;
+	r.buf = toStr<std::basic_string<Ch>>(us);
+	r.n = r.buf.size();
+	r.buf.push_back(static_cast<Ch>('7')); r.buf.push_back(static_cast<Ch>('5'));
+	return r;
 }
 
 // from_chars has no overloads for char16_t/char32_t/wchar_t: Convert::To<T>(string) does not compile for them
